@@ -120,6 +120,32 @@ theorem request_roundtrip (tp : Int) (htp : tp = 0 ∨ tp = 1 ∨ tp = 2) (remot
   · exact roundtrip_K remote purpose p
   · exact roundtrip_MR tp htp remote purpose p hl hr
 
+/-- The purpose id is whatever the network stack assigns to (remote node, local EPR socket id):
+`_get_purpose_id` must ask the stack with BOTH. For an ARBITRARY assignment `f` (parameter), the request
+for socket `socket` towards `remote` carries exactly `remote_node_id = remote` and
+`purpose_id = f remote socket` — nothing remembered from another socket or another remote node. -/
+theorem request_ids_exact (f : Int → Int → Int) (tp : Int) (htp : tp = 0 ∨ tp = 1 ∨ tp = 2)
+    (remote socket : Int) (p : ReqParams) (hl : ValidRB p.rbl) (hr : ValidRB p.rbr) :
+    ∃ kw, (serializeReq tp p).bind (getCreateRequest remote (f remote socket)) = some kw ∧
+      kw.find? (·.1 == "remote_node_id") = some ("remote_node_id", .int remote) ∧
+      kw.find? (·.1 == "purpose_id") = some ("purpose_id", .int (f remote socket)) := by
+  refine ⟨_, request_roundtrip tp htp remote (f remote socket) p hl hr, ?_, ?_⟩ <;> simp [expectedCreate]
+
+/-- if the stack's assignment is injective per remote node, the key (remote node, purpose) under which the
+controller files requests and matches responses (C12's queue key) determines the application's
+(remote node, socket): two sockets never share a queue, whatever their local ids. -/
+theorem queue_key_determines_socket (f : Int → Int → Int) (hinj : ∀ r s s', f r s = f r s' → s = s')
+    (r r' s s' : Int) (h : (r, f r s) = (r', f r' s')) : r = r' ∧ s = s' := by
+  simp only [Prod.mk.injEq] at h
+  obtain ⟨h1, h2⟩ := h
+  subst h1
+  exact ⟨rfl, hinj r s s' h2⟩
+
+/-- non-vacuity: the harness stack's assignment `remote·1000 + socket` is injective per remote node, and
+two sockets with the SAME local id 0 towards remote nodes 1 and 2 get different purposes -/
+example : (∀ r s s' : Int, r * 1000 + s = r * 1000 + s' → s = s') ∧ (1 * 1000 + 0 : Int) ≠ 2 * 1000 + 0 :=
+  ⟨fun r s s' h => by omega, by decide⟩
+
 /-- the six named bases are rotation triples the theorem covers (values 0..31) -/
 theorem named_bases_in_range : basisRot.all (fun (_, a, b, c) =>
     decide (0 ≤ a ∧ a < 32 ∧ 0 ≤ b ∧ b < 32 ∧ 0 ≤ c ∧ c < 32)) = true := by decide
